@@ -3,3 +3,13 @@ claim("C03",
       "Every program of <= L calls (quick L=3..4, thorough L=4..6) per family (plain/rich/unicode text, array, map, xml, nested), every commit grouping, both offset kinds, gc on/off, is executed on a real yrs Doc; after every call and commit all roots are read back and compared with a Vec/BTreeMap/tree model. Exhaustive within the alphabet and depth; says nothing beyond them.",
       "trusts the reference model in harness/src/ops.rs (apply_model) and the visible dump (harness/src/dump.rs); positions restricted to {0,mid,end}; one attribute key per call",
       "DESIGN.md 4/C03")
+claim("C01",
+      "bounded-exhaustive enumeration of multi-replica histories on real Docs + subset-lattice exploration of every delivery order with bounded deviations",
+      "All histories of L local operations (quick L=3..4, thorough L=4..5) on 2..3 real replicas with every placement of causal syncs are executed and state-matched on the canonical internal dump; for every distinct update pool every delivery order (graph over delivered set x internal state x deviations used) to fresh observers (gc on/off) and to the author replicas is explored with <= B deviations (duplicate, v2 link, merge_updates, diff_updates, relay via full-state export). Verdict: at every causally closed delivered set nothing is pending and content is path-independent and equal to an author with the same knowledge; at the full set content, state vector and pending-ness equal the in-order reference.",
+      "happened-before tracked by the harness; visible dump via public read API; bounded alphabets (positions {0,mid,end}), <= 3 replicas, <= 6 updates per pool",
+      "DESIGN.md 4/C01")
+claim("C02",
+      "subset-lattice exploration of every delivery order of real update pools, pending-ness judged at every node against a dependency fixed point",
+      "Same histories and lattices as C01 restricted to dependency-rich families; at EVERY lattice node has_missing_updates() must equal 'some delivered block lacks an origin/right-origin/parent/quoted id or a delivered deletion targets an absent id' (least fixed point over the decoded updates' dependency ids, from the verif hook); relay deviation (full-state export of a gapped replica into a fresh one, then the withheld updates) must reach the reference content, state vector and no pending.",
+      "dependency ids trusted from yrs::verif::update_dump; bounded alphabets; <= 2 replicas quick",
+      "DESIGN.md 4/C02")
